@@ -148,16 +148,21 @@ DevSig(d, e) ==
     [] d = "Dev_C07_IntMMK1" -> e.op = "linear" /\ e.outcome = "value" /\ e.kdim = 1 /\ Judge = "C05"
                                 /\ e.before.kind = "QBytes" /\ e.before.qt = "qint8" /\ e.before.axis = "none"
                                 /\ e.aux.kind = "QBytes" /\ e.aux.qt = "qint8" /\ e.aux.shape[1] > 1 /\ e.dq_shape = e.twin_shape
+    \* float16, float8 first operand x quantized 8-bit weight through quanto::qbytes_mm: the product of the two scales is formed in
+    \* float16 where it is subnormal (C07 finding reached through a program); the result has the right shape and dtype
+    [] d = "Dev_C07_F16Float8Act" -> e.op = "linear" /\ e.outcome = "value" /\ Judge = "C05" /\ e.fmt_in = "float16"
+                                     /\ e.before.kind = "QBytes" /\ e.before.qt \in {"qfloat8", "qfloat8_e4m3fn", "qfloat8_e5m2"}
+                                     /\ e.aux.kind = "QBytes" /\ e.dq_shape = e.twin_shape /\ e.dq_dtype = e.twin_dtype
     [] OTHER -> FALSE
 
-CONSTANTS Dev_C05_DivTensor, Dev_C05_NegMin, Dev_C07_IntMMK1
-DevOn == {d \in {"Dev_C07_IntMMK1", "Dev_C05_StackFallback", "Dev_C05_T1D", "Dev_C05_WhereOther", "Dev_C05_LtFloat8", "Dev_C05_CopyPlain",
+CONSTANTS Dev_C05_DivTensor, Dev_C05_NegMin, Dev_C07_IntMMK1, Dev_C07_F16Float8Act
+DevOn == {d \in {"Dev_C07_F16Float8Act", "Dev_C07_IntMMK1", "Dev_C05_StackFallback", "Dev_C05_T1D", "Dev_C05_WhereOther", "Dev_C05_LtFloat8", "Dev_C05_CopyPlain",
                  "Dev_C05_DivTensor", "Dev_C05_NegMin", "Dev_C06_SplitStaleSize"} :
             CASE d = "Dev_C05_StackFallback" -> Dev_C05_StackFallback [] d = "Dev_C05_T1D" -> Dev_C05_T1D
               [] d = "Dev_C05_WhereOther" -> Dev_C05_WhereOther [] d = "Dev_C05_LtFloat8" -> Dev_C05_LtFloat8
               [] d = "Dev_C05_CopyPlain" -> Dev_C05_CopyPlain [] d = "Dev_C05_DivTensor" -> Dev_C05_DivTensor
               [] d = "Dev_C05_NegMin" -> Dev_C05_NegMin [] d = "Dev_C06_SplitStaleSize" -> Dev_C06_SplitStaleSize
-              [] d = "Dev_C07_IntMMK1" -> Dev_C07_IntMMK1}
+              [] d = "Dev_C07_IntMMK1" -> Dev_C07_IntMMK1 [] d = "Dev_C07_F16Float8Act" -> Dev_C07_F16Float8Act}
 
 (* ---- as-built prediction (drift) --------------------------------------------------------------------- *)
 MetaOf(a, dt) == [kind |-> a.kind, qt |-> a.qt, axis |-> a.axis, shape |-> a.shape, pshape |-> a.shape, dtype |-> dt, why |-> ""]
